@@ -5,7 +5,9 @@
 (*   foreign local edit (untracked origin) | remote edit by replica 2 |     *)
 (*   delivery of that remote edit to replica 1                              *)
 (* for one tracked root type Kind (t = text, a = array with a nested map,   *)
-(* m = map with nested arrays).  Replica 1 owns the undo manager.           *)
+(* m = map with nested arrays, x = XML fragment: elements with attributes   *)
+(* and children, text nodes with characters and formatting).  Replica 1     *)
+(* owns the undo manager.                                                   *)
 (* An abstract content C (unique tokens) is kept so that the generated      *)
 (* addresses are meaningful; X resolves every address against the real      *)
 (* visible state (index clamped, inapplicable step = empty slot), so the    *)
@@ -17,12 +19,15 @@
 (***************************************************************************)
 EXTENDS Undo, Json
 
-CONSTANTS Kind,        \* "t" | "a" | "m"
+CONSTANTS Kind,        \* "t" | "a" | "m" | "x"
           MaxE,        \* tracked edits (exactly)
           MaxUR,       \* undo / redo calls (exactly)
           MaxF,        \* foreign edits (at most): untracked local origin or remote
           UseStop,     \* ustop may replace one tick
-          Flat         \* Kind "m" only: one key (k1), primitive values only (deep histories of a single map entry)
+          Flat         \* Kind "m": one key (k1), primitive values only (deep histories of a single map entry);
+                       \* Kind "x": one element (created by the first edit), afterwards only its attribute "id" is set / removed
+          ,Pre         \* Kind "x" only: the fragment already holds content of ANOTHER origin when the manager starts (the pipeline
+                       \* prepends the edits creating it): <e id=..>[text node], text node with two characters
 
 VARIABLES C,      \* abstract content of the tracked root
           M,      \* abstract manager (Undo.tla), views = contents
@@ -45,7 +50,10 @@ RemAt(s, i) == SubSeq(s, 1, i - 1) \o SubSeq(s, i + 1, Len(s))      \* 1-based
 (* uniform value records (TLC cannot compare values of different shapes) *)
 Val(k, id, e, mm) == [k |-> k, id |-> id, e |-> e, mm |-> mm]
 NoVal == Val("-", 0, <<>>, <<0, 0>>)
-C0 == IF Kind = "m" THEN <<NoVal, NoVal>> ELSE <<>>
+C0 == IF Kind = "m" THEN <<NoVal, NoVal>>
+      ELSE IF Kind = "x" /\ Pre
+           THEN << Val("E", 901, << <<903, 1>> >>, <<902, 0>>), Val("T", 904, << <<905, 0>>, <<906, 0>> >>, <<0, 0>>) >>
+           ELSE <<>>
 
 KeyIx(key) == IF key \in {"k1"} THEN 1 ELSE 2           \* root map: k1 k2; nested map: k1 k3
 KeyName(root, ix) == IF ix = 1 THEN "k1" ELSE IF root THEN "k2" ELSE "k3"
@@ -54,8 +62,93 @@ FirstM(c) == IF \E i \in 1..Len(c) : c[i].k = "M" THEN CHOOSE i \in 1..Len(c) : 
 (* an operation: [op, p, i, n, key, k]; Apply mirrors the address resolution of X (clamping) *)
 Op(op, p, i, n, key, k) == [op |-> op, p |-> p, i |-> i, n |-> n, key |-> key, k |-> k]
 
+(* Kind "x".  Content = sequence of nodes.  Element: Val("E", id, children, <<attribute id, attribute cl>>), children =  *)
+(* <<token, 0 | 1>> (element | text node, opaque).  Text node: Val("T", id, characters, <<0, 0>>), characters =         *)
+(* <<token, format value>> (0 = unformatted).  X makes every node unique by value (fresh element name, fresh `uid`      *)
+(* attribute of a text node), like the tokens here.  Addresses: "#e0" / "#t0" = first element / first text node.        *)
+FirstK(c, k) == IF \E i \in 1..Len(c) : c[i].k = k THEN CHOOSE i \in 1..Len(c) : c[i].k = k /\ \A j \in 1..(i - 1) : c[j].k # k ELSE 0
+XKeyIx(key) == IF key = "id" THEN 1 ELSE 2
+XKeyName(ix) == IF ix = 1 THEN "id" ELSE "cl"
+RemRange(s, i, n) == SubSeq(s, 1, i) \o SubSeq(s, i + n + 1, Len(s))           \* 0-based start, n elements
+ClampDel(s, i, n) == LET i2 == Min(i, Len(s) - 1) IN RemRange(s, i2, Min(n, Len(s) - i2))
+ApplyX(c, o, t) ==
+  IF Len(o.p) = 1 THEN
+     (IF o.op = "ins" THEN InsAt(c, Min(o.i, Len(c)),
+                                 << IF o.k = "X" THEN Val("T", t, << <<t + 1, 0>> >>, <<0, 0>>) ELSE Val("E", t, <<>>, <<0, 0>>) >>)
+      ELSE IF Len(c) = 0 THEN c ELSE ClampDel(c, o.i, o.n))
+  ELSE IF o.p[2] = "#e0" THEN
+     LET f == FirstK(c, "E") IN
+     IF f = 0 THEN c
+     ELSE IF o.op = "set" THEN [c EXCEPT ![f].mm[XKeyIx(o.key)] = t]
+     ELSE IF o.op = "rem" THEN [c EXCEPT ![f].mm[XKeyIx(o.key)] = 0]
+     ELSE IF o.op = "ins" THEN [c EXCEPT ![f].e = InsAt(@, Min(o.i, Len(@)), << <<t, IF o.k = "X" THEN 1 ELSE 0>> >>)]
+     ELSE IF Len(c[f].e) = 0 THEN c ELSE [c EXCEPT ![f].e = ClampDel(@, o.i, o.n)]
+  ELSE
+     LET f == FirstK(c, "T") IN
+     IF f = 0 THEN c
+     ELSE LET e == c[f].e
+              i2 == Min(o.i, Len(e))
+          IN IF o.op = "ins" THEN [c EXCEPT ![f].e = InsAt(e, i2, << <<t, IF i2 = 0 THEN 0 ELSE e[i2][2]>> >>)]
+             ELSE IF Len(e) = 0 THEN c
+             ELSE IF o.op = "del" THEN [c EXCEPT ![f].e = ClampDel(e, o.i, o.n)]
+             ELSE LET j == Min(o.i, Len(e) - 1)                 \* fmt: characters j+1 .. j+n get the fresh format value
+                      m == Min(o.n, Len(e) - j)
+                  IN [c EXCEPT ![f].e = [x \in 1..Len(e) |-> IF x > j /\ x <= j + m THEN <<e[x][1], t>> ELSE e[x]]]
+
+MenuX(c) ==
+  LET fe == FirstK(c, "E")
+      ft == FirstK(c, "T")
+  IN IF Flat THEN
+       (IF fe = 0 THEN {Op("ins", <<"x">>, 0, 1, "", "E")}
+        ELSE {Op("set", <<"x", "#e0">>, 0, 1, "id", "u")}
+             \cup (IF c[fe].mm[1] # 0 THEN {Op("rem", <<"x", "#e0">>, 0, 1, "id", "u")} ELSE {}))
+     ELSE IF Pre THEN      \* trimmed menu (the prepared content makes every branch available from the first edit on)
+       {Op("ins", <<"x">>, 0, 1, "", "E"), Op("ins", <<"x">>, Len(c), 1, "", "X")}
+       \cup {Op("del", <<"x">>, i, 1, "", "u") : i \in {0, Len(c) - 1} \cap 0..(Len(c) - 1)}
+       \cup (IF Len(c) >= 2 THEN {Op("del", <<"x">>, 0, 2, "", "u")} ELSE {})
+       \cup (IF fe # 0
+             THEN {Op("set", <<"x", "#e0">>, 0, 1, "id", "u"), Op("ins", <<"x", "#e0">>, 0, 1, "", "E"),
+                   Op("ins", <<"x", "#e0">>, Len(c[fe].e), 1, "", "X")}
+                  \cup (IF c[fe].mm[1] # 0 THEN {Op("rem", <<"x", "#e0">>, 0, 1, "id", "u")} ELSE {})
+                  \cup (IF Len(c[fe].e) > 0 THEN {Op("del", <<"x", "#e0">>, 0, 1, "", "u")} ELSE {})
+             ELSE {})
+       \cup (IF ft # 0
+             THEN {Op("ins", <<"x", "#t0">>, i, 1, "", "u") : i \in {0, Len(c[ft].e)}}
+                  \cup (IF Len(c[ft].e) > 0 THEN {Op("del", <<"x", "#t0">>, 0, 1, "", "u"), Op("fmt", <<"x", "#t0">>, 0, 1, "b", "u")} ELSE {})
+                  \cup (IF Len(c[ft].e) > 1 THEN {Op("fmt", <<"x", "#t0">>, 0, Len(c[ft].e), "b", "u")} ELSE {})
+             ELSE {})
+     ELSE
+       {Op("ins", <<"x">>, i, 1, "", k) : i \in {0, Len(c)}, k \in {"E", "X"}}
+       \cup {Op("del", <<"x">>, i, 1, "", "u") : i \in 0..(Len(c) - 1)}
+       \cup (IF Len(c) >= 2 THEN {Op("del", <<"x">>, 0, 2, "", "u")} ELSE {})
+       \cup (IF fe # 0
+             THEN {Op("set", <<"x", "#e0">>, 0, 1, key, "u") : key \in {"id", "cl"}}
+                  \cup {Op("rem", <<"x", "#e0">>, 0, 1, XKeyName(x), "u") : x \in {y \in 1..2 : c[fe].mm[y] # 0}}
+                  \cup {Op("ins", <<"x", "#e0">>, i, 1, "", k) : i \in {0, Len(c[fe].e)}, k \in {"E", "X"}}
+                  \cup {Op("del", <<"x", "#e0">>, i, 1, "", "u") : i \in 0..(Len(c[fe].e) - 1)}
+             ELSE {})
+       \cup (IF ft # 0
+             THEN {Op("ins", <<"x", "#t0">>, i, 1, "", "u") : i \in {0, Len(c[ft].e)}}
+                  \cup {Op("del", <<"x", "#t0">>, i, 1, "", "u") : i \in {0, Len(c[ft].e) - 1} \cap 0..(Len(c[ft].e) - 1)}
+                  \cup (IF Len(c[ft].e) > 0 THEN {Op("fmt", <<"x", "#t0">>, 0, 1, "b", "u")} ELSE {})
+                  \cup (IF Len(c[ft].e) > 1 THEN {Op("fmt", <<"x", "#t0">>, 0, Len(c[ft].e), "b", "u"),
+                                                   Op("fmt", <<"x", "#t0">>, Len(c[ft].e) - 1, 1, "b", "u")} ELSE {})
+             ELSE {})
+
+FMenuX(c) ==
+  LET fe == FirstK(c, "E")
+      ft == FirstK(c, "T")
+  IN {Op("ins", <<"x">>, 0, 1, "", "E")}
+     \cup (IF Len(c) > 0 THEN {Op("del", <<"x">>, 0, 1, "", "u")} ELSE {})
+     \cup (IF fe # 0 THEN {Op("set", <<"x", "#e0">>, 0, 1, "id", "u")} \cup (IF Pre THEN {} ELSE {Op("ins", <<"x", "#e0">>, 0, 1, "", "X")}) ELSE {})
+     \cup (IF ft # 0 THEN {Op("ins", <<"x", "#t0">>, 0, 1, "", "u")}
+                          \cup (IF Len(c[ft].e) > 0 THEN {Op("del", <<"x", "#t0">>, 0, 1, "", "u")} ELSE {})
+                          \cup (IF Len(c[ft].e) > 0 /\ ~Pre THEN {Op("fmt", <<"x", "#t0">>, 0, 1, "b", "u")} ELSE {})
+           ELSE {})
+
 Apply(c, o, t) ==
-  IF Kind = "t" THEN
+  IF Kind = "x" THEN ApplyX(c, o, t)
+  ELSE IF Kind = "t" THEN
      (IF o.op = "ins" THEN InsAt(c, Min(o.i, Len(c)), [j \in 1..o.n |-> t + j - 1])
       ELSE IF Len(c) = 0 THEN c ELSE RemAt(c, Min(o.i, Len(c) - 1) + 1))
   ELSE IF Kind = "a" THEN
@@ -78,7 +171,8 @@ Apply(c, o, t) ==
 
 (* tracked-edit menu in content c *)
 Menu(c) ==
-  IF Kind = "t" THEN
+  IF Kind = "x" THEN MenuX(c)
+  ELSE IF Kind = "t" THEN
      {Op("ins", <<"t">>, i, 1, "", "u") : i \in 0..Len(c)} \cup {Op("ins", <<"t">>, 0, 2, "", "u")}
      \cup {Op("del", <<"t">>, i, 1, "", "u") : i \in 0..(Len(c) - 1)}
   ELSE IF Kind = "a" THEN
@@ -103,7 +197,8 @@ Menu(c) ==
 
 (* foreign-edit menu (smaller) *)
 FMenu(c) ==
-  IF Kind = "t" THEN
+  IF Kind = "x" THEN FMenuX(c)
+  ELSE IF Kind = "t" THEN
      {Op("ins", <<"t">>, i, 1, "", "u") : i \in {0, Len(c)}}
      \cup {Op("del", <<"t">>, i, 1, "", "u") : i \in {0, Len(c) - 1} \cap 0..(Len(c) - 1)}
   ELSE IF Kind = "a" THEN
